@@ -195,6 +195,14 @@ CLAIMS['C10'] = dict(
          'the XML loader recomputes the bit widths and has an element for every size member; and that each shipped platforms/*.xml defines every member exactly once.',
     design='3/C10', note='Numerical results (MathLib literal parsing, character literals, constant folding, truncation arithmetic) are not decided - only the table they read.')
 
+CLAIMS['C07'] = dict(
+    technique='static analysis: extraction of the precedence/associativity table encoded by the compile* ladder of lib/tokenlist.cpp (call chain, operator spellings in the '
+              'branch conditions, the function passed for the right operand) and comparison with the grammar\'s table',
+    text='Decides that the chain compileComma -> ... -> compilePointerToElem has exactly the 14 binary levels of the C/C++ expression grammar in the same order, that each level '
+         'tests exactly the operators of that level (comma; = ?: ; ||; &&; |; ^; &; == !=; < <= > >=; <=>; << >>; + -; * / %; .*), that assignment/conditional are right-associative '
+         'and all others left-associative, and that compileExpression enters at the loosest level.',
+    design='3/C07', note='Unary, postfix, cast and template-bracket disambiguation (compilePrecedence2/3), which depend on token context, and the AST validation are not decided.')
+
 NOT_APPLICABLE = {
     'C01': 'soundness of inferred values vs. concrete executions of arbitrary programs; needs an executing/symbolic oracle, no structural necessary condition in valueflow.cpp',
     'C02': 'same as C01, for container sizes',
